@@ -1,6 +1,7 @@
 package props
 
 import (
+	"encoding/json"
 	"errors"
 	"fmt"
 	"os"
@@ -235,6 +236,41 @@ func c09Oracle(c *C09Case) string {
 				}
 			}
 		}
+	}
+	// a fault outside the argument vector: an option that is not given gets a
+	// default (as if assigned by the program) that cannot be converted
+	for _, o := range c.D.AllOpts() {
+		if (o.Kind != KInt && o.Kind != KUint8 && o.Kind != KFloat64) || len(o.Choices) > 0 || ref.Occ[o.ID] > 0 || o.ViaAdd {
+			continue
+		}
+		var d2 Decl
+		if raw, err := json.Marshal(c.D); err != nil || json.Unmarshal(raw, &d2) != nil {
+			break
+		}
+		patched := false
+		d2.EachCmd(func(cm *Cmd, _ []*Cmd) {
+			cm.G.EachGroup(func(g *Group, _ []*Group) {
+				for i := range g.Options {
+					if g.Options[i].ID == o.ID {
+						g.Options[i].Defaults, g.Options[i].InCode, patched = []string{"x!notanumber"}, nil, true
+					}
+				}
+			})
+		})
+		if !patched {
+			break
+		}
+		c2 := *c
+		c2.D = &d2
+		st.Eval()
+		m, rejected := c09Check(&c2, c.Args, "unconvertible default of an option that is not given")
+		if m != "" {
+			return m
+		}
+		if rejected {
+			st.Label("fault rejected: unconvertible default of an option that is not given")
+		}
+		break
 	}
 	fs := c09Faults(c.D, c.Args, ref)
 	for _, f := range fs {
